@@ -100,8 +100,11 @@ def binders_of(item):
         for g in m.groups():
             if g:
                 out += [(m.start(), n) for n in _idents(g)]
+    # a `for _ in …` loop (an unused loop variable) keeps its place in the list under the name `_`
+    for m in re.finditer(r"\bfor\s+_\w*\s+in\b", item):
+        out.append((m.start(), "_"))
     out.sort(key=lambda x: x[0])
-    return [n for _, n in out if n not in _KEYWORDS]
+    return [n for _, n in out if n == "_" or n not in _KEYWORDS]
 
 
 def canon(rel, src):
@@ -122,9 +125,12 @@ def canon(rel, src):
         # names that no longer occur; names that are still there keep their meaning (a mere reordering of
         # statements renames nothing)
         dedup = lambda xs: list(dict.fromkeys(xs))
-        new_names = [n for n in dedup(cur) if n not in set(ref)]
-        missing = [n for n in dedup(ref) if n not in set(cur)]
-        if new_names and len(new_names) == len(missing) and len(dedup(cur)) == len(dedup(ref)):
+        # an unused loop variable written `_` / `_name` now: the recorded name at the same position is not
+        # expected back
+        gone = {ref[i] for i, n in enumerate(cur) if n == "_" and i < len(ref) and ref[i] != "_"} if len(cur) == len(ref) else set()
+        new_names = [n for n in dedup(cur) if n not in set(ref) and n != "_"]
+        missing = [n for n in dedup(ref) if n not in set(cur) and n not in gone and n != "_"]
+        if new_names and len(new_names) == len(missing):
             mp = dict(zip(new_names, missing))
             # capture: a new name must not already occur in the item as something that stays
             others = set(re.findall(r"[A-Za-z_]\w*", item)) - set(mp)
@@ -159,10 +165,53 @@ def strip_debug_asserts(src):
     return "".join(out)
 
 
+def inline_consts(src):
+    """module-level private `const NAME: T = <integer literal | path expression>;` and non-generic
+    `type NAME = <path>;` items are substituted into the text (a named constant for a magic number and a
+    type alias for a long path are not changes of the program); then integer products / sums of literals
+    inside `.add( … )` and `[ … ]` are folded (`rowptr.add(2 * 4)` reads `rowptr.add(8)`)"""
+    defs = {}
+    for m in re.finditer(r"(?m)^(?:pub(?:\([^)]*\))?\s+)?const\s+([A-Z][A-Z0-9_]*)\s*:\s*[^=;]+=\s*([^;{}]+);", src):
+        init = m.group(2).strip()
+        if re.fullmatch(r"-?(0x[0-9a-fA-F_]+|\d[\d_]*)(?:[ui](?:8|16|32|64|size))?", init) or re.fullmatch(r"[<>\w:\s]+", init):
+            defs[m.group(1)] = re.sub(r"(?<=[0-9a-fA-F_])(?:[ui](?:8|16|32|64|size))$", "", init)
+    for m in re.finditer(r"(?m)^(?:pub(?:\([^)]*\))?\s+)?type\s+([A-Z]\w*)\s*=\s*([^;{}]+);", src):
+        # only at nesting depth 0 (not an associated type inside an impl / trait)
+        if src[:m.start()].count("{") == src[:m.start()].count("}"):
+            defs[m.group(1)] = m.group(2).strip()
+    # a few names are too common to be touched unless they were really defined at module level (they were)
+    for name, val in sorted(defs.items(), key=lambda kv: -len(kv[0])):
+        decl = re.compile(r"(?m)^(?:pub(?:\([^)]*\))?\s+)?(?:const|type)\s+" + re.escape(name) + r"\b[^;]*;")
+        src = decl.sub("", src)
+        src = re.sub(r"(?<![\w:.])" + re.escape(name) + r"(?![\w(!])", val, src)
+    lit = r"(?:0x[0-9a-fA-F_]+|\d[\d_]*)"
+
+    def fold(m):
+        inner = m.group(2)
+        if not re.fullmatch(r"\s*" + lit + r"(?:\s*[*+]\s*" + lit + r")+\s*", inner):
+            return m.group(0)
+        toks = re.findall(lit + r"|[*+]", inner)
+        vals = [int(t.replace("_", ""), 16) if t.lower().startswith("0x") else (int(t.replace("_", "")) if t not in "*+" else t) for t in toks]
+        # products first
+        out = [vals[0]]
+        for op, v in zip(vals[1::2], vals[2::2]):
+            if op == "*":
+                out[-1] *= v
+            else:
+                out.append(v)
+        return m.group(1) + str(sum(out)) + m.group(3)
+    return re.sub(r"(\.add\(|\[)([^()\[\]]*)(\)|\.\.\]|\])", fold, src)
+
+
 def read(rel):
     with open(os.path.join(REPO, rel)) as f:
         text = f.read()
-    return strip_debug_asserts(canon(rel, strip_comments(text))) if rel in CANON_FILES else text
+    if rel not in CANON_FILES:
+        return text
+    text = strip_comments(text)
+    if not rel.endswith("pwm/dist.rs"):      # Gen.Dist reads the declaration of CDF_RANGE itself
+        text = inline_consts(text)
+    return strip_debug_asserts(canon(rel, text))
 
 
 def record_binders():
